@@ -277,6 +277,35 @@ def cfCoeffs (N D : List K) : CFRes K :=
     | e => e
   else cfRun fuel N D
 
+/-! ### inverse continued fraction (`Expr.continued_fraction_inverse_coeffs`, Cauer II) -/
+
+/-- `foo` of `continued_fraction_inverse_coeffs`, in the variable `y = 1/var`: the forward Euclid step
+    `cfStep`, except that when the dividend is shorter (`degree(NET) > degree(DET)` in the code) a zero
+    coefficient is emitted and the arguments are swapped. -/
+def cfRunSwap : Nat → List K → List K → CFRes K
+  | 0, _, _ => .fuelOut
+  | fuel + 1, N, D =>
+    match cfStep N D with
+    | none =>
+      match cfRunSwap fuel D N with
+      | .ok rest => .ok ((0, 0) :: rest)
+      | e => e
+    | some (q, k, N2) =>
+      if isZero N2 then .ok [(q, k)]
+      else
+        match cfRunSwap fuel D N2 with
+        | .ok rest => .ok ((q, k) :: rest)
+        | e => e
+
+/-- pad with high-order zeros to `m` coefficients and reverse: the coefficients of `var^(m−1)·P(1/var)` -/
+def revPad (P : List K) (m : Nat) : List K := (P ++ List.replicate (m - P.length) 0).reverse
+
+/-- `Expr.continued_fraction_inverse_coeffs()` for `N/D`: coefficients `q·var^(−k)`, obtained by
+    expanding in `y = 1/var` (the `ET()` of a polynomial in `var` is the `LT()` of its reversal in `y`). -/
+def cfiCoeffs (N D : List K) : CFRes K :=
+  let m := max N.length D.length
+  cfRunSwap (2 * (m + m) + 3) (revPad N m) (revPad D m)
+
 /-- `Expr.as_continued_fraction().foo`: `c0 + 1/(c1 + 1/(c2 + …))` as an expression -/
 def cfExpr : List (K × Nat) → RExpr K
   | [] => .const 0
